@@ -33,6 +33,12 @@ func (o *c16Oracle) Probe(pt string, zeit, subd int, wdt float64, g *G, w *herme
 		if a == nil {
 			return
 		}
+		if g.SAAT[akf] > 0 && zeit <= g.SAAT[akf] {
+			// development stages belong to a crop that has been sown: on or before the sowing date the model itself holds
+			// for the current rotation entry the field is bare
+			o.violate("auto-irrigation", "irrigation-before-sowing", zeit,
+				fmt.Sprintf("automatic irrigation of %.4g mm applied on %s, the current rotation entry (%s) is not sown before %s", g.EffectiveIRRIG*10, Day(zeit).ISO(), a.Crop, Day(g.SAAT[akf]).ISO()), nil)
+		}
 		st := int(g.INTWICK.Num)
 		if st < a.IrrSt1 || st > a.IrrSt2 {
 			o.violate("auto-irrigation", "irrigation-outside-stage-window", zeit,
